@@ -380,6 +380,9 @@ carquet_status_t carquet_dictionary_decode_int32(
     int bit_width = indices_data[0];
 
     /* Decode RLE indices */
+    if ((uint64_t)output_count > SIZE_MAX / sizeof(uint32_t)) {
+        return CARQUET_ERROR_OUT_OF_MEMORY;  /* the size of the index buffer does not fit in size_t */
+    }
     uint32_t* indices = malloc(output_count * sizeof(uint32_t));
     if (!indices) {
         return CARQUET_ERROR_OUT_OF_MEMORY;
@@ -433,6 +436,9 @@ carquet_status_t carquet_dictionary_decode_int64(
     }
     int bit_width = indices_data[0];
 
+    if ((uint64_t)output_count > SIZE_MAX / sizeof(uint32_t)) {
+        return CARQUET_ERROR_OUT_OF_MEMORY;  /* the size of the index buffer does not fit in size_t */
+    }
     uint32_t* indices = malloc(output_count * sizeof(uint32_t));
     if (!indices) {
         return CARQUET_ERROR_OUT_OF_MEMORY;
@@ -486,6 +492,9 @@ carquet_status_t carquet_dictionary_decode_float(
     }
     int bit_width = indices_data[0];
 
+    if ((uint64_t)output_count > SIZE_MAX / sizeof(uint32_t)) {
+        return CARQUET_ERROR_OUT_OF_MEMORY;  /* the size of the index buffer does not fit in size_t */
+    }
     uint32_t* indices = malloc(output_count * sizeof(uint32_t));
     if (!indices) {
         return CARQUET_ERROR_OUT_OF_MEMORY;
@@ -539,6 +548,9 @@ carquet_status_t carquet_dictionary_decode_double(
     }
     int bit_width = indices_data[0];
 
+    if ((uint64_t)output_count > SIZE_MAX / sizeof(uint32_t)) {
+        return CARQUET_ERROR_OUT_OF_MEMORY;  /* the size of the index buffer does not fit in size_t */
+    }
     uint32_t* indices = malloc(output_count * sizeof(uint32_t));
     if (!indices) {
         return CARQUET_ERROR_OUT_OF_MEMORY;
